@@ -25,6 +25,7 @@ import os
 from mc import core
 
 SHORT = 0.15    # seconds: first-pass watchdog (a scaffold build takes ~1 ms)
+HANG_CAP = 40    # graph families: non-terminating builds per work item before the item is cut short (CAPPED)
 CONFIRM_MAX = 1  # confirmed hangs per interrupted function and worker before short time-outs are trusted
 
 
@@ -112,6 +113,7 @@ class Judge:
         self.s = scripts
         self.p = core.Part()
         self.found = {}          # group -> (rank, example, what, replay)
+        self.hangs = 0           # non-terminating builds seen in this work item
         self.confirmed = CONFIRMED   # hanging function -> count (per worker process)
 
     def build(self, text, **kw):
@@ -139,6 +141,8 @@ class Judge:
                 p.sample(dict(input=example, outcome=group))
             return
         p.outcome("VIOLATION " + group.split("|")[0])
+        if b.kind == "Watchdog":
+            self.hangs += 1
         old = self.found.get(group)
         if old is None or rank < old[0]:
             replay = dict(script=text, outcome=detail,
@@ -207,6 +211,9 @@ def work(item):
         for i, (label, text) in enumerate(scripts.gen_link_graphs(n, mu)):
             if i % nshards != shard:
                 continue
+            if J.hangs >= HANG_CAP:      # a hang defect makes most graphs hang: enough evidence, stop this shard
+                J.p.capped = True
+                break
             J.judge((qflag, 5, n, 0 if mu is not None else 1, len(label), label), label, text)
     elif kind == "firstnext":
         n = item[2]
@@ -217,6 +224,9 @@ def work(item):
         for i, (label, text) in enumerate(scripts.gen_clone_graphs(n, kinds, roots)):
             if i % nshards != shard:
                 continue
+            if J.hangs >= HANG_CAP:
+                J.p.capped = True
+                break
             J.judge((qflag, 7, n, len(kinds), len(label), label), label, text)
     J.p.extra["found"] = J.found
     return J.p
